@@ -4,7 +4,7 @@ Confirms a seeded change (demo passes clean / fails mutated, baseline suite unch
 runs the named checks against it, and files it under /verif/seeded/<seed id>/ with the outcome in meta.json."""
 import json, os, shutil, subprocess, sys, tempfile
 from pathlib import Path
-src, sid, props = Path(sys.argv[1]), sys.argv[2], sys.argv[3:]
+src, sid, props = Path(sys.argv[1]).resolve(), sys.argv[2], sys.argv[3:]
 V = Path("/verif")
 wt = Path(tempfile.mkdtemp(prefix="seedwt_", dir="/dev/shm"))
 os.rmdir(wt)
